@@ -162,83 +162,144 @@ Proof.
   - constructor; [|constructor]. split; [exact L|]. exists m. left; reflexivity.
 Qed.
 
+Lemma walk_ok_pos h t p t0 p' :
+  walk_ok h t -> walk_pos t = Some (p, t0, p') ->
+  exists pre ns, p = pre ++ p' /\ resolve h 0 pre = Some t0 /\ rwalk h 0 pre = Some ns /\
+                 Forall (fun x => x < t0 /\ exists m, In (x, m) (held t)) ns.
+Proof.
+  intros Wt W. unfold walk_ok in Wt.
+  destruct (tpc t) eqn:P; try (rewrite W in Wt; exact Wt).
+  unfold walk_pos in W. rewrite P in W. destruct (top t); discriminate.
+Qed.
+
+Lemma step_not_start b h t h' t' : tstep_gen b h t = Some (h', t') -> forall o, tpc t' <> PStart o.
+Proof.
+  intros ST o. pose proof (tstep_shape _ _ _ _ _ ST) as SH.
+  destruct t as [o0 p hs]. cbn [tpc top held] in *.
+  destruct (lockop_of (TH o0 p hs)) eqn:LO.
+  - destruct SH as [_ ->]. cbn [tpc].
+    destruct p; cbn -[Nat.ltb hdelete set_cont new_chain] in *; try discriminate;
+    repeat (first
+              [ match goal with |- context [start_pc ?a ?b] => destruct b end
+              | match goal with |- context [match get_cont ?a ?b with _ => _ end] => destruct (get_cont a b) end
+              | match goal with |- context [match assoc ?a ?b with _ => _ end] => destruct (assoc a b) end
+              | match goal with |- context [if Nat.ltb ?a ?b then _ else _] => destruct (Nat.ltb a b) end
+              | match goal with |- context [if Nat.eqb ?a ?b then _ else _] => destruct (Nat.eqb a b) end
+              | match goal with |- context [match query_visits ?a ?b with _ => _ end] => destruct (query_visits a b) end
+              | match goal with |- context [if heads_all ?a then _ else _] => destruct (heads_all a) end
+              | match goal with |- context [match strip_glob ?a with _ => _ end] => destruct (strip_glob a) end
+              | match goal with |- context [match dtodo ?a with _ => _ end] => destruct (dtodo a) as [|[? ?] ?] end
+              | match goal with |- context [match ?x with _ => _ end] => is_var x; destruct x end ];
+            cbn -[Nat.ltb hdelete set_cont new_chain] in *; try discriminate).
+  - destruct SH as [_ [_ ->]]. cbn [tpc]. destruct p; cbn in *; try discriminate; qfin.
+  - destruct SH as [_ ->]. cbn [tpc]. destruct p; cbn in *; try discriminate; qfin.
+  - destruct SH as [_ [_ ->]]. cbn [tpc]. destruct p; cbn in *; try discriminate; qfin.
+  - destruct SH as [n [m [hs' [_ [_ ->]]]]]. cbn [tpc]. destruct p; cbn in *; try discriminate; qfin.
+Qed.
+
+Lemma walk_ok_intro h t :
+  (forall o, tpc t = PStart o -> o = top t) ->
+  (forall p t0 p', walk_pos t = Some (p, t0, p') ->
+     exists pre ns, p = pre ++ p' /\ resolve h 0 pre = Some t0 /\ rwalk h 0 pre = Some ns /\
+                    Forall (fun x => x < t0 /\ exists m, In (x, m) (held t)) ns) ->
+  walk_ok h t.
+Proof.
+  intros S0 W. unfold walk_ok.
+  destruct (walk_pos t) as [[[p0 t0] p']|] eqn:E.
+  - specialize (W _ _ _ eq_refl). destruct (tpc t) eqn:P; try exact W.
+    unfold walk_pos in E. rewrite P in E. destruct (top t); discriminate.
+  - destruct (tpc t) eqn:P; try exact I. apply S0. reflexivity.
+Qed.
+
+Lemma walk_ok_start h t o : walk_ok h t -> tpc t = PStart o -> o = top t.
+Proof. unfold walk_ok. intros W P. rewrite P in W. exact W. Qed.
+
 Lemma walk_ok_step b h t h' t' :
   heap_ok h -> thread_ok (List.length h) t -> walk_ok h t ->
   tstep_gen b h t = Some (h', t') -> walk_ok h' t'.
 Proof.
-  intros HO TO A ST. pose proof (tstep_shape _ _ _ _ _ ST) as SH.
+  intros HO TO A ST. apply walk_ok_intro.
+  { intros o Pc. exfalso. eapply step_not_start; eauto. }
+  pose proof (tstep_shape _ _ _ _ _ ST) as SH.
   destruct TO as [SO [IL P]].
-  destruct t as [o p hs]. unfold walk_ok, walk_pos in *. cbn [top tpc held] in *.
+  assert (A' := fun p t0 p' => walk_ok_pos h t p t0 p' A).
+  assert (S0 := fun o => walk_ok_start h t o A).
+  clear A.
+  destruct t as [o p hs]. cbn [top tpc held] in *.
+  intros pp tt pq W'.
   (* facts about the walked prefix survive changes of the current node and allocation *)
   assert (KEEP : forall pre ns t0,
              resolve h 0 pre = Some t0 -> rwalk h 0 pre = Some ns ->
              Forall (fun x => x < t0 /\ exists m, In (x, m) hs) ns ->
              (forall x, x < t0 -> x < List.length h -> get_cont h' x = get_cont h x) ->
              resolve h' 0 pre = Some t0 /\ rwalk h' 0 pre = Some ns).
-  { intros pre ns t0 R W F G. destruct (rwalk_frame h h' pre 0 ns t0 W R) as [W' R']; auto.
+  { intros pre ns t0 R W F G. destruct (rwalk_frame h h' pre 0 ns t0 W R) as [W3 R']; auto.
     intros x Hx. rewrite Forall_forall in F. destruct (F _ Hx) as [Lx [m Hm]].
     apply G; auto. eapply In_ids_lt; eauto. }
-  destruct p; cbn -[set_cont new_chain hdelete] in SH; try discriminate.
-  - (* PStart *) destruct SH as [_ ->]. subst o0. cbn [top tpc].
-    destruct o; cbn -[Nat.ltb]; auto.
-    + exists [], []. repeat split; auto.
-    + exists [], []. repeat split; auto.
-    + destruct (Nat.ltb n (List.length h)); exact I.
-    + destruct (Nat.ltb n (List.length h)); exact I.
-  - (* PAddEnter *) destruct o; try (destruct p; cbn in SH;
-      repeat match goal with H : _ /\ _ |- _ => destruct H end; subst; cbn; exact I).
-    destruct A as [pre [ns [-> [R [W F]]]]]. destruct p as [|k r]; cbn in SH.
-    + destruct SH as [-> ->]. cbn. exists pre, ns. rewrite app_nil_r.
-      destruct (KEEP pre ns t R W F) as [R' W']; [intros; apply get_cont_upd_mu; auto|]. auto.
-    + destruct SH as [_ [-> ->]]. cbn. exists pre, ns.
-      destruct (KEEP pre ns t R W F) as [R' W']; [intros; apply get_cont_upd_mu; auto|].
-      repeat split; auto. eapply Forall_impl; [|exact F]. cbn. intros x [L [m Hm]]. split; auto.
-      exists m. right; auto.
-  - (* PAddTAcq *) destruct o; try (repeat match goal with H : _ /\ _ |- _ => destruct H end; subst; cbn; exact I).
-    destruct A as [pre [ns [-> [R [W F]]]]]. destruct SH as [_ [-> ->]]. cbn. exists pre, ns.
-    destruct (KEEP pre ns t R W F) as [R' W']; [intros; apply get_cont_upd_mu; auto|].
-    repeat split; auto. eapply Forall_impl; [|exact F]. cbn. intros x [L [m Hm]]. split; auto.
-    exists m. right; auto.
-  - (* PAddTCrit *) destruct SH as [_ ->]. cbn. destruct o; auto.
-    destruct (get_cont h t); exact I.
-    all: destruct (get_cont h t); exact I.
-  - (* PAddIRead *) destruct o; try (destruct SH as [_ ->]; cbn;
-      destruct (get_cont h t) as [| |cs]; cbn; auto; destruct (assoc k cs); cbn; exact I).
-    destruct A as [pre [ns [-> [R [W F]]]]]. destruct SH as [-> ->]. cbn [top tpc held].
-    destruct (get_cont h t) as [| |cs] eqn:E; cbn.
-    + exists pre, ns. auto.
-    + exact I.
-    + destruct (assoc k cs) as [c|] eqn:As; cbn.
-      * destruct (walk_extend h hs pre ns t MR cs k c HO P R W F E As) as [R' [W' F']].
+  assert (PUSH : forall ns t0 x, Forall (fun y => y < t0 /\ exists m, In (y, m) hs) ns ->
+                                 Forall (fun y => y < t0 /\ exists m, In (y, m) (x :: hs)) ns).
+  { intros ns t0 x F. eapply Forall_impl; [|exact F]. cbn. intros y [L [m Hm]]. split; auto.
+    exists m. right; auto. }
+  destruct p; cbn -[set_cont new_chain hdelete Nat.ltb] in SH; try discriminate.
+  - (* PStart *) destruct SH as [_ ->]. rewrite (S0 _ eq_refl) in W'. unfold walk_pos in W'. cbn [top tpc] in W'.
+    destruct o; cbn -[Nat.ltb] in W'; try discriminate W'.
+    all: try (destruct (Nat.ltb n (List.length h)); discriminate W').
+    + inv W'. exists [], []. repeat split; auto.
+    + inv W'. exists [], []. repeat split; auto.
+  - (* PAddEnter *) destruct p as [|k r]; cbn in SH.
+    + destruct SH as [-> ->]. unfold walk_pos in W'. cbn [top tpc] in W'. destruct o; try discriminate W'. inv W'.
+      destruct (A' _ _ _ eq_refl) as [pre [ns [Ep [R [W F]]]]]. exists pre, ns.
+      destruct (KEEP pre ns tt R W F) as [R' W2]; [intros; apply get_cont_upd_mu; auto|]. auto.
+    + destruct SH as [_ [-> ->]]. unfold walk_pos in W'. cbn [top tpc] in W'. destruct o; try discriminate W'. inv W'.
+      destruct (A' _ _ _ eq_refl) as [pre [ns [Ep [R [W F]]]]]. exists pre, ns.
+      destruct (KEEP pre ns tt R W F) as [R' W2]; [intros; apply get_cont_upd_mu; auto|].
+      cbn [held]. repeat split; auto.
+  - (* PAddTAcq *) destruct SH as [_ [-> ->]]. unfold walk_pos in W'. cbn [top tpc] in W'. destruct o; try discriminate W'. inv W'.
+    destruct (A' _ _ _ eq_refl) as [pre [ns [Ep [R [W F]]]]]. exists pre, ns.
+    destruct (KEEP pre ns tt R W F) as [R' W2]; [intros; apply get_cont_upd_mu; auto|].
+    cbn [held]. repeat split; auto.
+  - (* PAddTCrit *) destruct SH as [_ ->]. unfold walk_pos in W'. cbn [top tpc visit_override] in W'.
+    destruct o; try discriminate W'; destruct (get_cont h t); discriminate W'.
+  - (* PAddIRead *) destruct SH as [-> ->]. unfold walk_pos in W'. cbn [top tpc visit_override held] in *.
+    destruct o; try (destruct (get_cont h t) as [| |cs]; cbn in W'; try discriminate W';
+                     destruct (assoc k cs); discriminate W').
+    destruct (A' _ _ _ eq_refl) as [pre [ns [Ep [R [W F]]]]].
+    destruct (get_cont h t) as [| |cs] eqn:E; cbn in W'.
+    + inv W'. exists pre, ns. auto.
+    + discriminate.
+    + destruct (assoc k cs) as [c|] eqn:As; cbn in W'; inv W'.
+      * destruct (walk_extend h hs pre ns t MR cs k tt HO P R W F E As) as [R' [W2 F']].
         exists (pre ++ [k]), (ns ++ [t]). split; [apply app_snoc_cons|auto].
       * exists pre, ns. auto.
-  - (* PAddIRel *) destruct o; try (destruct SH as [n9 [m9 [hs' [_ [_ ->]]]]]; cbn; exact I).
-    destruct A as [pre [ns [-> [R [W F]]]]]. destruct SH as [n9 [m9 [hs' [Hh [-> ->]]]]]. cbn.
-    exists pre, ns.
-    destruct (KEEP pre ns t R W F) as [R' W']; [intros; destruct m9; apply get_cont_upd_mu; auto|].
-    repeat split; auto. destruct P as [[r0 Hr] _]. rewrite Hr in Hh. inv Hh.
+  - (* PAddIRel *) destruct SH as [n9 [m9 [hs' [Hh [-> ->]]]]]. unfold walk_pos in W'. cbn [top tpc] in W'.
+    destruct P as [[r0 Hr] _]. rewrite Hr in Hh. injection Hh as <- <- <-. subst hs.
+    destruct o; try discriminate W'. injection W' as <- <- <-.
+    destruct (A' _ _ _ eq_refl) as [pre [ns [Ep [R [W F]]]]]. exists pre, ns.
+    destruct (KEEP pre ns t R W F) as [R' W2]; [intros; apply get_cont_upd_mu; auto|].
+    cbn [held]. repeat split; auto.
     eapply Forall_impl; [|exact F]. cbn. intros x [L [m Hm]]. split; auto.
     exists m. destruct Hm as [Hm|Hm]; [inv Hm; lia|auto].
-  - (* PAddUpg *) destruct o; try (destruct SH as [_ ->]; cbn; exact I).
-    destruct A as [pre [ns [-> [R [W F]]]]]. destruct SH as [-> ->]. cbn. exists pre, ns.
-    destruct (KEEP pre ns t R W F) as [R' W']; [intros; apply get_cont_upd_mu; auto|]. auto.
-  - (* PAddUAcq *) destruct o; try (destruct SH as [_ [_ ->]]; cbn; exact I).
-    destruct A as [pre [ns [-> [R [W F]]]]]. destruct SH as [_ [-> ->]]. cbn. exists pre, ns.
-    destruct (KEEP pre ns t R W F) as [R' W']; [intros; apply get_cont_upd_mu; auto|].
-    repeat split; auto. eapply Forall_impl; [|exact F]. cbn. intros x [L [m Hm]]. split; auto.
-    exists m. right; auto.
-  - (* PAddSlow *) destruct o; try (destruct SH as [_ ->]; cbn [top tpc];
-      destruct (get_cont h t) as [| |cs]; cbn -[set_cont new_chain]; auto;
-      destruct (assoc k cs); cbn; exact I).
-    destruct A as [pre [ns [-> [R [W F]]]]]. destruct SH as [-> ->]. cbn [top tpc held].
+  - (* PAddUpg *) destruct SH as [-> ->]. unfold walk_pos in W'. cbn [top tpc] in W'.
+    destruct o; try discriminate W'. inv W'.
+    destruct (A' _ _ _ eq_refl) as [pre [ns [Ep [R [W F]]]]]. exists pre, ns.
+    destruct (KEEP pre ns tt R W F) as [R' W2]; [intros; apply get_cont_upd_mu; auto|]. auto.
+  - (* PAddUAcq *) destruct SH as [_ [-> ->]]. unfold walk_pos in W'. cbn [top tpc] in W'.
+    destruct o; try discriminate W'. inv W'.
+    destruct (A' _ _ _ eq_refl) as [pre [ns [Ep [R [W F]]]]]. exists pre, ns.
+    destruct (KEEP pre ns tt R W F) as [R' W2]; [intros; apply get_cont_upd_mu; auto|].
+    cbn [held]. repeat split; auto.
+  - (* PAddSlow *) destruct SH as [Eh ->]. unfold walk_pos in W'. cbn [top tpc visit_override held] in *.
+    destruct o; try (destruct (get_cont h t) as [| |cs]; cbn -[set_cont new_chain] in W'; try discriminate W';
+                     destruct (assoc k cs); discriminate W').
+    destruct (A' _ _ _ eq_refl) as [pre [ns [Ep [R [W F]]]]].
     assert (Lt : t < List.length h) by (destruct P as [[r0 ->] _]; inv IL; auto).
-    destruct (get_cont h t) as [| |cs] eqn:E; cbn -[set_cont new_chain].
-    + (* empty: branch{} and insert *)
-      set (h' := set_cont h t (CBranch [(k, List.length h)]) ++ new_chain (List.length h) r v).
+    destruct (get_cont h t) as [| |cs] eqn:E; cbn -[set_cont new_chain] in W', Eh.
+    + inv W'.
+      set (h' := set_cont h t (CBranch [(k, List.length h)]) ++ new_chain (List.length h) pq v).
       assert (G : forall x, x < t -> x < List.length h -> get_cont h' x = get_cont h x).
       { intros x L1 L2. unfold h'. rewrite get_cont_app_l by (rewrite length_set_cont; auto).
         apply get_cont_set_neq. lia. }
-      destruct (rwalk_frame h h' pre 0 ns t W R) as [W' R'].
+      destruct (rwalk_frame h h' pre 0 ns t W R) as [W2 R'].
       { intros x Hx. rewrite Forall_forall in F. destruct (F _ Hx) as [Lx [m Hm]].
         apply G; auto. eapply In_ids_lt; eauto. }
       assert (E' : get_cont h' t = CBranch [(k, List.length h)]).
@@ -249,15 +310,15 @@ Proof.
       apply Forall_app. split.
       * eapply Forall_impl; [|exact F]. cbn. intros x [L Hm]. split; [lia|auto].
       * constructor; [|constructor]. split; [auto|]. destruct P as [[r0 ->] _]. exists MW. left; auto.
-    + exact I.
-    + destruct (assoc k cs) as [c|] eqn:As; cbn -[set_cont new_chain].
-      * destruct (walk_extend h hs pre ns t MW cs k c HO P R W F E As) as [R' [W' F']].
+    + discriminate.
+    + destruct (assoc k cs) as [c|] eqn:As; cbn -[set_cont new_chain] in W', Eh; inv W'.
+      * destruct (walk_extend h hs pre ns t MW cs k tt HO P R W F E As) as [R' [W2 F']].
         exists (pre ++ [k]), (ns ++ [t]). split; [apply app_snoc_cons|auto].
-      * set (h' := set_cont h t (CBranch (cs ++ [(k, List.length h)])) ++ new_chain (List.length h) r v).
+      * set (h' := set_cont h t (CBranch (cs ++ [(k, List.length h)])) ++ new_chain (List.length h) pq v).
         assert (G : forall x, x < t -> x < List.length h -> get_cont h' x = get_cont h x).
         { intros x L1 L2. unfold h'. rewrite get_cont_app_l by (rewrite length_set_cont; auto).
           apply get_cont_set_neq. lia. }
-        destruct (rwalk_frame h h' pre 0 ns t W R) as [W' R'].
+        destruct (rwalk_frame h h' pre 0 ns t W R) as [W2 R'].
         { intros x Hx. rewrite Forall_forall in F. destruct (F _ Hx) as [Lx [m Hm]].
           apply G; auto. eapply In_ids_lt; eauto. }
         assert (E' : get_cont h' t = CBranch (cs ++ [(k, List.length h)])).
@@ -268,59 +329,62 @@ Proof.
         apply Forall_app. split.
         -- eapply Forall_impl; [|exact F]. cbn. intros x [L Hm]. split; [lia|auto].
         -- constructor; [|constructor]. split; [auto|]. destruct P as [[r0 ->] _]. exists MW. left; auto.
-  - (* PGetEnter *) destruct o; try (destruct SH as [_ [_ ->]]; cbn; exact I).
-    destruct A as [pre [ns [-> [R [W F]]]]]. destruct SH as [_ [-> ->]]. cbn. exists pre, ns.
-    destruct (KEEP pre ns t R W F) as [R' W']; [intros; apply get_cont_upd_mu; auto|].
-    repeat split; auto. eapply Forall_impl; [|exact F]. cbn. intros x [L [m Hm]]. split; auto.
-    exists m. right; auto.
-  - (* PGetRead *) destruct o; try (destruct SH as [_ ->]; cbn [top tpc];
-      destruct p as [|k r]; cbn; auto; destruct (get_cont h t) as [| |cs]; cbn; auto;
-      destruct (assoc k cs); cbn; exact I).
-    destruct A as [pre [ns [-> [R [W F]]]]]. destruct SH as [-> ->]. cbn [top tpc held].
-    destruct p as [|k r]; cbn; [exact I|].
-    destruct (get_cont h t) as [| |cs] eqn:E; cbn; auto.
-    destruct (assoc k cs) as [c|] eqn:As; cbn; auto.
-    destruct (walk_extend h hs pre ns t MR cs k c HO P R W F E As) as [R' [W' F']].
+  - (* PGetEnter *) destruct SH as [_ [-> ->]]. unfold walk_pos in W'. cbn [top tpc] in W'.
+    destruct o; try discriminate W'. inv W'.
+    destruct (A' _ _ _ eq_refl) as [pre [ns [Ep [R [W F]]]]]. exists pre, ns.
+    destruct (KEEP pre ns tt R W F) as [R' W2]; [intros; apply get_cont_upd_mu; auto|].
+    cbn [held]. repeat split; auto.
+  - (* PGetRead *) destruct SH as [-> ->]. unfold walk_pos in W'. cbn [top tpc visit_override held] in *.
+    destruct p as [|k r]; cbn in W'; [destruct o; discriminate W'|].
+    destruct o; try (destruct (get_cont h t) as [| |cs]; cbn in W'; try discriminate W';
+                     destruct (assoc k cs); discriminate W').
+    destruct (A' _ _ _ eq_refl) as [pre [ns [Ep [R [W F]]]]].
+    destruct (get_cont h t) as [| |cs] eqn:E; cbn in W'; try discriminate W'.
+    destruct (assoc k cs) as [c|] eqn:As; cbn in W'; inv W'.
+    destruct (walk_extend h hs pre ns t MR cs k tt HO P R W F E As) as [R' [W2 F']].
     exists (pre ++ [k]), (ns ++ [t]). split; [apply app_snoc_cons|auto].
   - (* PUnwind *) destruct hs as [|[n m] r0]; cbn in SH.
-    + destruct SH as [_ ->]. destruct k; cbn; destruct o; exact I.
-    + destruct SH as [n' [m' [hs' [_ [_ ->]]]]]. cbn. destruct o; exact I.
-  - destruct SH as [_ [_ ->]]. cbn. destruct o; exact I.
-  - destruct SH as [_ ->]. cbn. destruct o; exact I.
-  - destruct SH as [_ ->]. cbn. destruct o; exact I.
-  - destruct SH as [_ [_ ->]]. cbn. destruct o; exact I.
-  - destruct SH as [_ ->]. cbn. destruct o; exact I.
-  - destruct SH as [n' [m' [hs' [_ [_ ->]]]]]. cbn. destruct o; exact I.
-  - destruct SH as [_ ->]. cbn. destruct o; exact I.
-  - destruct SH as [_ [_ ->]]. cbn. destruct o; exact I.
-  - destruct SH as [_ ->]. cbn. destruct o; exact I.
-  - destruct SH as [_ [_ ->]]. cbn. destruct o; exact I.
-  - destruct SH as [_ ->]. cbn [top tpc]. destruct (query_visits (get_cont h t) q); cbn; destruct o; exact I.
-  - destruct SH as [_ ->]. cbn. destruct o as [| |q9 [k9|]| | | |]; try exact I.
-    destruct (Nat.eqb (List.length acc) k9); exact I.
+    + destruct SH as [_ ->]. unfold walk_pos in W'. destruct k; cbn in W'; destruct o; discriminate W'.
+    + destruct SH as [n' [m' [hs' [_ [_ ->]]]]]. unfold walk_pos in W'. cbn in W'. destruct o; discriminate W'.
+  - destruct SH as [_ [_ ->]]. unfold walk_pos in W'. cbn in W'. destruct o; discriminate W'.
+  - destruct SH as [_ ->]. unfold walk_pos in W'. cbn in W'. destruct o; discriminate W'.
+  - destruct SH as [_ ->]. unfold walk_pos in W'. cbn in W'. destruct o; discriminate W'.
+  - destruct SH as [_ [_ ->]]. unfold walk_pos in W'. cbn in W'. destruct o; discriminate W'.
+  - destruct SH as [_ ->]. unfold walk_pos in W'. cbn in W'. destruct o; discriminate W'.
+  - destruct SH as [n' [m' [hs' [_ [_ ->]]]]]. unfold walk_pos in W'. cbn in W'. destruct o; discriminate W'.
+  - destruct SH as [_ ->]. unfold walk_pos in W'. cbn in W'. destruct o; discriminate W'.
+  - destruct SH as [_ [_ ->]]. unfold walk_pos in W'. cbn in W'. destruct o; discriminate W'.
+  - destruct SH as [_ ->]. unfold walk_pos in W'. cbn in W'. destruct o; discriminate W'.
+  - destruct SH as [_ [_ ->]]. unfold walk_pos in W'. cbn in W'. destruct o; discriminate W'.
+  - destruct SH as [_ ->]. unfold walk_pos in W'. cbn [top tpc visit_override] in W'.
+    destruct (query_visits (get_cont h t) q); cbn in W'; destruct o; discriminate W'.
+  - destruct SH as [_ ->]. unfold walk_pos in W'. cbn [top tpc visit_override] in W'.
+    destruct o as [| |q9 [k9|]| | | |]; try discriminate W'.
+    all: try (destruct (Nat.eqb (List.length acc) k9); discriminate W').
   - destruct fr as [|[|[[c pre0] q0] todo] fr]; cbn in SH.
-    + destruct SH as [_ ->]. cbn. destruct o; exact I.
-    + destruct SH as [n' [m' [hs' [_ [_ ->]]]]]. cbn. destruct o; exact I.
-    + destruct SH as [_ ->]. cbn. destruct o; exact I.
-  - (* PLDel *) destruct SH as [_ ->]. cbn. destruct o; exact I.
-  - (* PLDelAcq *) destruct SH as [_ [_ ->]]. cbn. destruct o; exact I.
-  - (* PLVisit *) destruct SH as [_ ->]. cbn [top tpc]. destruct (heads_all q).
-    + destruct (get_cont h n); [| |]; cbn; try (destruct o; exact I).
-      destruct (strip_glob q); cbn; destruct o; exact I.
-    + destruct q as [|k r]; cbn; [destruct o; exact I|].
-      destruct (get_cont h n) as [| |cs]; cbn; try (destruct o; exact I).
-      destruct (assoc k cs); cbn; destruct o; exact I.
-  - (* PLNext *) destruct fr as [|f fr]; cbn in SH.
-    + destruct SH as [_ ->]. cbn. destruct o; exact I.
-    + destruct SH as [_ ->]. cbn [top tpc]. destruct (dtodo f) as [|[k c] rest]; cbn; destruct o; exact I.
-  - (* PLEnter *) destruct SH as [_ ->]. cbn. destruct o; exact I.
-  - (* PLCAcq *) destruct SH as [_ [_ ->]]. cbn. destruct o; exact I.
-  - (* PLRet *) destruct fr as [|f fr]; cbn in SH.
-    + destruct SH as [_ ->]. cbn. destruct o; exact I.
-    + destruct SH as [n' [m' [hs' [_ [_ ->]]]]]. cbn. destruct o; exact I.
-  - (* PLBack *) destruct fr as [|f fr]; cbn -[set_cont] in SH.
-    + destruct SH as [_ ->]. cbn. destruct o; exact I.
-    + destruct SH as [_ ->]. cbn. destruct o; exact I.
+    + destruct SH as [_ ->]. unfold walk_pos in W'. cbn in W'. destruct o; discriminate W'.
+    + destruct SH as [n' [m' [hs' [_ [_ ->]]]]]. unfold walk_pos in W'. cbn in W'. destruct o; discriminate W'.
+    + destruct SH as [_ ->]. unfold walk_pos in W'. cbn in W'. destruct o; discriminate W'.
+  - destruct SH as [_ ->]. unfold walk_pos in W'. cbn in W'. destruct o; discriminate W'.
+  - destruct SH as [_ [_ ->]]. unfold walk_pos in W'. cbn in W'. destruct o; discriminate W'.
+  - destruct SH as [_ ->]. unfold walk_pos in W'. cbn [top tpc visit_override] in W'. destruct (heads_all q).
+    + destruct (get_cont h n); cbn in W'; try (destruct o; discriminate W').
+      destruct (strip_glob q); cbn in W'; destruct o; discriminate W'.
+    + destruct q as [|k r]; cbn in W'; [destruct o; discriminate W'|].
+      destruct (get_cont h n) as [| |cs]; cbn in W'; try (destruct o; discriminate W').
+      destruct (assoc k cs); cbn in W'; destruct o; discriminate W'.
+  - destruct fr as [|f fr]; cbn in SH.
+    + destruct SH as [_ ->]. unfold walk_pos in W'. cbn in W'. destruct o; discriminate W'.
+    + destruct SH as [_ ->]. unfold walk_pos in W'. cbn [top tpc visit_override] in W'.
+      destruct (dtodo f) as [|[k c] rest]; cbn in W'; destruct o; discriminate W'.
+  - destruct SH as [_ ->]. unfold walk_pos in W'. cbn in W'. destruct o; discriminate W'.
+  - destruct SH as [_ [_ ->]]. unfold walk_pos in W'. cbn in W'. destruct o; discriminate W'.
+  - destruct fr as [|f fr]; cbn in SH.
+    + destruct SH as [_ ->]. unfold walk_pos in W'. cbn in W'. destruct o; discriminate W'.
+    + destruct SH as [n' [m' [hs' [_ [_ ->]]]]]. unfold walk_pos in W'. cbn in W'. destruct o; discriminate W'.
+  - destruct fr as [|f fr]; cbn -[set_cont] in SH.
+    + destruct SH as [_ ->]. unfold walk_pos in W'. cbn in W'. destruct o; discriminate W'.
+    + destruct SH as [_ ->]. unfold walk_pos in W'. cbn in W'. destruct o; discriminate W'.
 Qed.
 
 
